@@ -1210,6 +1210,15 @@ class Typer:
 
     # ------------------------------------------------------------------ narrowing
     def _narrow(self, node, key: str, ts: FrozenSet, ctx: Ctx) -> FrozenSet:
+        cache = self.__dict__.setdefault('_narrow_facts', {})
+        facts = cache.get(id(node))
+        if facts is None:
+            facts = cache[id(node)] = self._narrow_facts_of(node)
+        for pos, test in facts:
+            ts = self._apply_fact(ts, key, pos, test, ctx)
+        return ts
+
+    def _narrow_facts_of(self, node):
         facts = []  # list of (positive: bool, test expr)
         child = node
         parent = getattr(node, '_parent', None)
@@ -1257,9 +1266,7 @@ class Typer:
                         facts.append((False, prev.test))
                     elif isinstance(prev, ast.Assert):
                         facts.append((True, prev.test))
-        for pos, test in facts:
-            ts = self._apply_fact(ts, key, pos, test, ctx)
-        return ts
+        return facts
 
     def _apply_fact(self, ts, key, pos, test, ctx) -> FrozenSet:
         if isinstance(test, ast.UnaryOp) and isinstance(test.op, ast.Not):
